@@ -4,7 +4,7 @@
 # /repo, /verif/evidence and /verif/replays are untouched and several seeds can be tried at once.  Scratch is removed afterwards.
 ID=$1; CK=${2:-$1}; TO=${3:-1800}
 ISO=/root/scratch/iso/$ID.$CK; rm -rf $ISO; mkdir -p $ISO /root/scratch/seedruns
-rsync -a --exclude target --exclude .git /repo/ $ISO/repo/
+if [ -n "${SEED_BASE:-}" ]; then mkdir -p $ISO/repo && git -C /repo archive $SEED_BASE | tar -x -C $ISO/repo; else rsync -a --exclude target --exclude .git /repo/ $ISO/repo/; fi
 rsync -a --exclude target --exclude .git --exclude replays /verif/ $ISO/verif/
 (cd $ISO/repo && git apply /verif/seeded/$ID/patch.diff) || { echo "patch failed"; exit 9; }
 (cd $ISO/verif && VERIF_REPO=$ISO/repo MIRSE_SCRATCH=$ISO/mirse ORACLE_TARGET=$ISO/otarget timeout $TO ./check $CK) > /root/scratch/seedruns/$ID.$CK.log 2>&1; rc=$?
